@@ -1096,6 +1096,11 @@ func (ex *Exec) callFunction(fr *Frame, fn *ssa.Function, args []Value, bind []V
 func (ex *Exec) callSSA(parent *Frame, fn *ssa.Function, args []Value, bind []Value) (ret Value) {
 	ex.depth++
 	if ex.depth > ex.maxDepth {
+		if ex.unwindIsViolation && ex.specDepth == 0 {
+			ex.depth = 0
+			ex.recordViolation("fatal", "terminates", fmt.Sprintf("call depth exceeded %d: unbounded recursion (Go stack overflow)", ex.maxDepth), fn.String(), nil)
+			panic(&pathAbort{Kind: "done", Msg: "recursion bound exceeded"})
+		}
 		panic(&pathAbort{Kind: "budget", Msg: "call depth exceeded in " + fn.String()})
 	}
 	ex.fnsEntered[fn] = true
